@@ -1304,6 +1304,22 @@ func (s *c15Sched) arriveRejected() {
 	}
 }
 
+// silentVisit: a whitelisted client connects, never sends a byte and leaves (port probe, client
+// that gives up while waiting). Whether it got a slot or sat in the backlog, nothing may be lost.
+func (s *c15Sched) silentVisit() {
+	c := s.dial(true)
+	if c == nil {
+		return
+	}
+	v := c15Variants[s.r.Intn(len(c15Variants))]
+	if s.r.Intn(2) == 0 {
+		time.Sleep(time.Duration(1+s.r.Intn(5)) * time.Millisecond) // usually long enough to be accepted when a slot is free
+	}
+	c.depart(v, false, s.wd())
+	s.lastDepart = "silent-" + v
+	s.step("SILENT_VISIT", v, "gone")
+}
+
 func (s *c15Sched) departHeld() {
 	h := s.H[s.r.Intn(len(s.H))]
 	v := c15Variants[s.r.Intn(len(c15Variants))]
@@ -1458,6 +1474,7 @@ func (s *c15Sched) run() {
 		if s.L.hasWL {
 			opts = append(opts, opt{2, s.arriveRejected})
 		}
+		opts = append(opts, opt{2, s.silentVisit})
 		tot := 0
 		for _, o := range opts {
 			tot += o.w
@@ -1476,6 +1493,10 @@ func (s *c15Sched) run() {
 	}
 	if s.abort {
 		return
+	}
+	// clients that leave without having sent anything, while slots are free and while they are taken
+	for i := 0; i < N+1 && !s.abort; i++ {
+		s.silentVisit()
 	}
 	// R-recover
 	s.closeAll()
